@@ -488,6 +488,17 @@ pub fn c08_check(tier: Tier) -> Outcome {
     }
     let ne2 = e2.len();
     let h = std::thread::spawn(move || run_cells("c09", e2, &crate::pool_opts(Tier::Quick)));
+    // two windowed downloads in a row from ONE client endpoint through the real Server (partial ACK of the first window):
+    // the acknowledgements of the second transfer must reach the second transfer
+    let mut e3 = vec![];
+    for single in [false, true] {
+        let mut s = crate::loopback::SrvCfg::basic();
+        s.single = single;
+        e3.push(json!({"srv": s.to_json(), "family": "reuse", "windowed": true, "property": "C08"}));
+    }
+    let ne3 = e3.len();
+    let res3 = run_cells("c07_e2", e3, &crate::pool_opts(Tier::Quick));
+    out.absorb(res3, ne3);
     finish(&mut out, "modea", c08_cells(tier), tier);
     if let Ok(res) = h.join() {
         out.absorb(res, ne2);
@@ -499,7 +510,7 @@ pub fn c08_check(tier: Tier) -> Outcome {
         let res = crate::run_cells_ovf("modea", cells, tier);
         out.absorb(res, n);
     }
-    out.rule = modea_rule("window / retransmission-causality monitors W1-W4 and abort-on-duplicate-ACK; windowsize 1,2,3,4,8 with the delay dimension, 65534/65535 with a reduced alphabet; plus, through the real Server in both port modes, a duplicate ACK 0.7 s before a negotiated 6-second interval elapses (wall clock)");
+    out.rule = modea_rule("window / retransmission-causality monitors W1-W4 and abort-on-duplicate-ACK; windowsize 1,2,3,4,8 with the delay dimension, 65534/65535 with a reduced alphabet; plus, through the real Server in both port modes, a duplicate ACK 0.7 s before a negotiated 6-second interval elapses (wall clock), and two windowed downloads in a row from one client endpoint");
     out.assumptions = vec!["'retransmission' = a burst containing a block already sent; legal only if virtual time since the previous burst >= timeout or the preceding answer was an in-window ACK that left sent blocks outstanding".into()];
     out
 }
